@@ -122,6 +122,27 @@ for _what in ("remove_circuit", "remove_relay", "remove_exit_socket"):
                       " or e.name.startswith('ready.') for e in trace())"],
              note="the removal waits for settings.remove_tunnel_delay once and for nothing else")
 
+# an exit entry that becomes ENABLED while its removal is waiting out the grace period (the circuit's first data cell overtaken by the
+# destroy) is closed like any other enabled one: what counts is the state of the socket when the entry is dropped, not when the removal began
+def environment_may_enable(sock):
+    """what the rest of the node may do while the removal task is suspended: exit the first data of the circuit (TunnelExitSocket.enable)"""
+    if nondet_bool():
+        sock.enabled = True
+    return True
+
+
+contract(f"{TC}::TunnelCommunity.remove_exit_socket", "remove_exit_socket.closes-what-is-enabled-when-it-is-dropped",
+         vars={"hc1": HOP(), "sock": ROUTING(f"{ES}::TunnelExitSocket", hop=HOP(), enabled=BOOL, close=CALLABLE("close", raises=()),
+                                             shutdown_task_manager=CALLABLE("sock_shutdown", raises=())),
+               "self": OBJ(f"{TC}::TunnelCommunity", logger=LOGGER(), settings=SETTINGS, exit_sockets=EXPR("{sock.circuit_id: sock}")),
+               "destroy": BOOL, "U": EXPR(f"undecorated({TCLS}, 'remove_exit_socket')")},
+         requires=["self.settings.remove_tunnel_delay >= 0"],
+         call="run_coro(U(self, sock.circuit_id, 'x', False, destroy))", raises=[], stubs=SEND_DESTROY,
+         on_effect={"await:sleep": ["environment_may_enable(sock)"]},
+         ensures=["len(self.exit_sockets) == 0", "len(calls('close')) == (1 if sock.enabled else 0)", "len(calls('sock_shutdown')) == 1"],
+         covers=["len(calls('close')) == 1", "len(calls('close')) == 0"],
+         note="no exit socket that was enabled at the moment its entry disappeared is left open")
+
 contract(f"{TC}::TunnelCommunity.remove_relay", "remove_relay.forwards-destroy",
          vars={"hc1": HOP(), "self": COMM, "cid": INT, "U": EXPR(f"undecorated({TCLS}, 'remove_relay')")},
          requires=["self.settings.remove_tunnel_delay >= 0", "cid in self.relay_from_to"],
